@@ -473,3 +473,21 @@ Theorem C12_oracle_sound_partial : forall (A : Type) (ops : app_ops A) (p : para
           R12_found_not_successor; R12_found_not_next_token; R12_successor_changed_without_ready_reply].
 Proof. exact c12_oracle_sound_partial. Qed.
 Print Assumptions C12_oracle_sound_partial.
+
+(* ORACLE SOUNDNESS, PARTIAL, second part (Proofs/FdlOracleSound10-11.v, FdlOracleSoundAll.v): the status-reply rules.
+   For applications that transmit REQUEST telegrams (`app_sends_requests`: what an application hands to the PHY
+   decodes as a data telegram with a request function code - the monitor takes a response telegram with the own
+   source address for a status reply of the station) the only rules of C12 that can be reported on a transcript
+   of the model are R12_sweep_bound, R12_post_claim_scan_incomplete and the liveness rule R12_gap_wait_never_ends;
+   i.e. in addition to the rules of C12_oracle_sound_partial also R12_reply_without_request, R12_reply_untruthful
+   and R12_reply_from_wrong_state are never reported.  (The request the station has pending is the one the
+   monitor recorded from the last delivered telegram: invariant RQ of FdlOracleSound11.) *)
+From PB Require Import FdlOracleSound11 FdlOracleSoundAll.
+
+Theorem C12_oracle_sound_partial_req : forall (A : Type) (ops : app_ops A) (p : params),
+  apps_total A ops -> builder_valid p -> app_sends_data A ops -> app_sends_requests A ops ->
+  forall (apps : list A) (ins : list minput), ins_ok 0 ins ->
+  forall k r, In (k, r) (monitor p (length apps) (model_transcript A ops p apps ins)) -> rule_prop r = PC12 ->
+  In r [R12_sweep_bound; R12_post_claim_scan_incomplete; R12_gap_wait_never_ends].
+Proof. exact c12_open_req. Qed.
+Print Assumptions C12_oracle_sound_partial_req.
